@@ -134,30 +134,38 @@ def sl2_iso(ctx, sign):
     is_isometry(ctx, h.sl2_iso(A0).proj_data, 2, tag="a0_")
 
 
-def spacelike(ctx, name, n):
-    v = ctx.reals(name, (n + 1,), lambda r: np.concatenate([[r.uniform(-0.5, 0.5)], (lambda u: u / np.linalg.norm(u) * r.uniform(1, 2))(r.normal(size=n))]))
+SPACELIKE_STRATA = ["generic", "z0", "z1", "z2", "z01", "z02"]      # coordinates of the normal that vanish identically (n = 2)
+
+
+def spacelike(ctx, name, n, stratum="generic"):
+    """a spacelike vector; `stratum` names the coordinates that are identically zero (the loci where the pivots of the
+    kernel contract and the library's own orthogonalisation change), all other coordinates non-zero"""
+    v = ctx.reals(name, (n + 1,), lambda r: np.concatenate([[r.choice([-1, 1]) * r.uniform(0.1, 0.5)], (lambda u: u / np.linalg.norm(u) * r.uniform(1, 2))(r.normal(size=n))]))
+    zero = [int(c) for c in stratum[1:]] if stratum != "generic" else []
+    v = np.array(v, copy=True)
+    for i in range(n + 1):
+        if i in zero:
+            v[i] = 0 * v[i]
+        elif n == 2 or stratum != "generic":
+            ctx.assume(v[i] * v[i], '>', 0)
     ctx.assume(spec.mink(v, v), '>', 1e-6)
     return v
 
 
-@rcontract(P, "spacelike_to", instances=[dict(n=2)], thorough=[dict(n=3)], timeout=120.0, max_paths=60,
-           functions=[H + "spacelike_to", H + "spacelike", U + "find_isometry", U + "normalize"])
-def spacelike_to(ctx, n):
-    v = spacelike(ctx, 'v', n)
-    ctx.assume(v[0] * v[0], '>', 0)      # pivot chart of the kernel contract (v[0] = 0 is covered by the bounded stand-in)
-    ctx.kernel_gs_form = spec.J(n + 1)  # assumed: the SVD basis of v^perp (signature (n-1,1)) has no null leading vector
+@rcontract(P, "spacelike_to", instances=[dict(n=2, stratum=s_) for s_ in SPACELIKE_STRATA], thorough=[dict(n=3, stratum="generic")], timeout=120.0, max_paths=60,
+           functions=[H + "spacelike_to", H + "spacelike", U + "find_isometry", U + "normalize", U + "projection"])
+def spacelike_to(ctx, n, stratum):
+    v = spacelike(ctx, 'v', n, stratum)
     M = h.spacelike_to(np.array(v, copy=True)).proj_data
     is_isometry(ctx, M, n)
     ctx.ensure_eq('sends_e1_to_the_vector', M[1:2], v[None, :], proj=True, tol=1e-6)
 
 
-@rcontract(P, "reflection_across", instances=[dict(n=2)], thorough=[dict(n=3)], timeout=150.0, max_paths=60,
+@rcontract(P, "reflection_across", instances=[dict(n=2, stratum=s_) for s_ in SPACELIKE_STRATA], thorough=[dict(n=3, stratum="generic")], timeout=150.0, max_paths=60,
            functions=[H + "Subspace.reflection_across", H + "Hyperplane.__init__", H + "Hyperplane._compute_ideal_basis", H + "Hyperplane._data_with_dual",
                       H + "spacelike_to", U + "invert"])
-def reflection_across(ctx, n):
-    v = spacelike(ctx, 'v', n)
-    ctx.assume(v[0] * v[0], '>', 0)
-    ctx.kernel_gs_form = spec.J(n + 1)
+def reflection_across(ctx, n, stratum):
+    v = spacelike(ctx, 'v', n, stratum)
     R = h.Hyperplane(np.array(v, copy=True)).reflection_across().proj_data
     is_isometry(ctx, R, n)
 
@@ -212,6 +220,17 @@ def sampling(tier, rng, rep):
         nv = np.concatenate([[rng.uniform(-0.5, 0.5)], (lambda u: u / np.linalg.norm(u) * rng.uniform(1, 2))(rng.normal(size=n))])
         isos.append(("reflection", rep.attempt("reflection_runs", {"n": n, "normal": nv.tolist()}, lambda: h.Hyperplane(nv.copy()).reflection_across())))
         isos.append(("spacelike_to", rep.attempt("spacelike_to_runs", {"n": n, "v": nv.tolist()}, lambda: h.spacelike_to(nv.copy()))))
+        # the hyperplane given by n generic ideal points (Subspace / Geodesic route: the normal is found by orthogonalisation)
+        idl = rng.normal(size=(n, n)); idl /= np.linalg.norm(idl, axis=-1, keepdims=True)
+        idl = np.concatenate([np.ones((n, 1)), idl], axis=1) * rng.uniform(0.5, 2, size=(n, 1))
+        Rs = rep.attempt("subspace_reflection_runs", {"n": n, "ideal_points": idl.tolist()},
+                         lambda: (h.Geodesic(h.IdealPoint(idl.copy())) if n == 2 and t % 2 else h.Subspace(h.IdealPoint(idl.copy()))).reflection_across())
+        if Rs is not None:
+            isos.append(("subspace_reflection", Rs))
+            img = idl @ Rs.proj_data
+            crs = img[:, :, None] * idl[:, None, :]
+            if not np.all(np.abs(crs - np.swapaxes(crs, -1, -2)) <= 1e-6 * max(1.0, np.max(np.abs(crs)))):
+                rep.fail("subspace_reflection_fixes_its_ideal_points", "", {"n": n, "ideal_points": idl.tolist()})
         if n == 2:
             A = rng.normal(size=(2, 2)); A /= np.sqrt(abs(np.linalg.det(A)))
             isos.append(("sl2_iso", h.sl2_iso(A)))
@@ -308,6 +327,71 @@ def parameter_dtypes(tier, rng, rep):
             Ai = np.array(A, dtype=dt) if dt else A
             inp = {"n": 2, "sl2": A, "dtype": str(dt)}
             check("sl2_iso", lambda: h.sl2_iso(Ai), lambda: h.sl2_iso(np.array(A, dtype=float)), 2, inp)
+
+
+@bounded(P, "structured_hyperplanes", functions=[H + "spacelike_to", H + "Subspace.reflection_across", H + "Subspace._data_with_dual", H + "Hyperplane._compute_ideal_basis",
+                                                  U + "find_isometry", U + "indefinite_orthogonalize", U + "orthogonal_complement"],
+         note="hyperplanes in special position: small-integer normals (zero time coordinate, equal spatial coordinates), hyperplanes through the origin given by antipodal / symmetric ideal points")
+def structured_hyperplanes(tier, rng, rep):
+    rep.rule = ("all spacelike normals with coordinates in {-2..2} (float64) in dimension 2, 3 and a sample in dimension 4; geodesics / hyperplanes spanned by ideal points on the "
+                "coordinate axes and diagonals (diameters included): reflection_across and spacelike_to must be isometries, the reflection negates the normal / fixes the ideal points")
+    import itertools as it
+    cnt = 0
+    for n in (2, 3, 4):
+        J = spec.J(n + 1)
+        grid = list(it.product(range(-2, 3), repeat=n + 1))
+        if n == 4 or (n == 3 and tier != 'thorough'):
+            grid = [grid[i] for i in rng.choice(len(grid), size=150, replace=False)]
+        for v in grid:
+            v = np.array(v, dtype=float)
+            if not v @ J @ v > 0:
+                continue
+            cnt += 1
+            inp = {"n": n, "normal": v.tolist()}
+
+            def body():
+                with np.errstate(all='ignore'):
+                    T = h.spacelike_to(v.copy()).proj_data
+                    R = h.Hyperplane(v.copy()).reflection_across().proj_data
+                for nm, M in (("spacelike_to", T), ("reflection", R)):
+                    if not np.all(np.abs(M @ J @ M.T - J) <= 1e-8 * max(1.0, np.max(np.abs(M)) ** 2)):
+                        rep.fail("preserves_form", f"{nm} of the normal {v.tolist()}: max |M J M^T - J| = {np.max(np.abs(M @ J @ M.T - J)):.2e}", inp); return
+                e1 = np.zeros(n + 1); e1[1] = 1
+                cr = np.outer(e1 @ T, v)
+                if not np.all(np.abs(cr - cr.T) <= 1e-8 * max(1.0, np.max(np.abs(cr)))):
+                    rep.fail("spacelike_to_sends_e1_to_v", "", inp); return
+                if not np.all(np.abs(v @ R + v) <= 1e-8 * (1 + np.max(np.abs(v)))):
+                    rep.fail("reflection_negates_normal", f"{(v @ R).tolist()}", inp)
+            rep.attempt("structured_normal_runs", inp, body)
+            rep.case(key=("normal", n, tuple(v.tolist())), nontrivial=bool(v[0] == 0), sample=inp if cnt == 1 else None)
+        # hyperplanes through ideal points in special position
+        dirs = [d for d in it.product((-1, 0, 1), repeat=n) if any(d)]
+        combos = list(it.combinations(range(len(dirs)), n))
+        if len(combos) > 120:
+            combos = [combos[i] for i in rng.choice(len(combos), size=120, replace=False)]
+        for cb in combos:
+            pts = np.array([dirs[i] for i in cb], dtype=float)
+            pts = pts / np.linalg.norm(pts, axis=-1, keepdims=True)
+            idl = np.concatenate([np.ones((n, 1)), pts], axis=1)
+            if abs(np.linalg.det(np.concatenate([idl, np.ones((1, n + 1))], axis=0)[:, :n + 1][:n + 1])) < 1e-9 and np.linalg.matrix_rank(idl) < n:
+                continue
+            if np.linalg.matrix_rank(idl) < n:
+                continue
+            inp = {"n": n, "ideal_points": idl.tolist()}
+
+            def body2():
+                with np.errstate(all='ignore'):
+                    S = h.Geodesic(h.IdealPoint(idl.copy())) if n == 2 else h.Subspace(h.IdealPoint(idl.copy()))
+                    R = S.reflection_across().proj_data
+                if not np.all(np.abs(R @ J @ R.T - J) <= 1e-8 * max(1.0, np.max(np.abs(R)) ** 2)):
+                    rep.fail("preserves_form", f"reflection across the subspace through {idl.tolist()}", inp); return
+                img = idl @ R
+                crs = img[:, :, None] * idl[:, None, :]
+                if not np.all(np.abs(crs - np.swapaxes(crs, -1, -2)) <= 1e-8 * max(1.0, np.max(np.abs(crs)))):
+                    rep.fail("subspace_reflection_fixes_its_ideal_points", "", inp)
+            rep.attempt("structured_subspace_runs", inp, body2)
+            rep.case(key=("ideal", n, cb), nontrivial=True)
+    rep.bound = f"{cnt} normals + ideal-point configurations"
 
 
 from vf.pcontract import lean_lemmas
